@@ -38,6 +38,13 @@ class Interpreter {
         continue;
       }
       this.impl.start_evaluating(line);
+      if (this.impl.get_state() === JsInterpreterState.Errored) {
+        // The line couldn't be entered. The interpreter won't evaluate
+        // anything else until its error has been collected, which
+        // `handleCurrentState()` will do (and show) once we're started,
+        // so stop loading here instead of running a partial program.
+        return;
+      }
     }
     this.impl.start_evaluating("RUN");
   }
